@@ -3493,14 +3493,15 @@ class NetCDFRead(IORead):
                 field_properties.pop(k, None)
                 for k in ("add_offset", "scale_factor")
             ]
-            unpacked_dtype = values != [None, None]
-            if unpacked_dtype:
+            values = [value for value in values if value is not None]
+            unpacked_dtype = False
+            if values:
                 try:
-                    values.remove(None)
-                except ValueError:
-                    pass
-
-                unpacked_dtype = np.result_type(*values)
+                    unpacked_dtype = np.result_type(*values)
+                except TypeError:
+                    # An attribute that is not numeric (for which no
+                    # unpacking will be done)
+                    unpacked_dtype = False
 
         # Initialise node_coordinates_as_bounds
         g["node_coordinates_as_bounds"] = set()
